@@ -728,19 +728,29 @@ ComponentNameMap createComponentNamesMap(const ComponentPtr &component)
     return nameMap;
 }
 
-std::vector<UnitsPtr> referencedUnits(const ModelPtr &model, const UnitsPtr &units)
+void findReferencedUnits(const ModelPtr &model, const UnitsPtr &units, std::vector<UnitsPtr> &requiredUnits, std::vector<UnitsPtr> &visiting)
 {
-    std::vector<UnitsPtr> requiredUnits;
-
+    visiting.push_back(units);
     for (size_t index = 0; index < units->unitCount(); ++index) {
         const std::string ref = units->unitAttributeReference(index);
         if (!isStandardUnitName(ref)) {
             auto refUnits = model->units(ref);
-            auto requiredUnitsUnits = referencedUnits(model, refUnits);
-            requiredUnits.insert(requiredUnits.end(), requiredUnitsUnits.begin(), requiredUnitsUnits.end());
-            requiredUnits.push_back(refUnits);
+            // Units that the model does not have cannot be followed, and units that are being followed already close a cycle.
+            if ((refUnits != nullptr) && (std::find(visiting.begin(), visiting.end(), refUnits) == visiting.end())) {
+                findReferencedUnits(model, refUnits, requiredUnits, visiting);
+                requiredUnits.push_back(refUnits);
+            }
         }
     }
+    visiting.pop_back();
+}
+
+std::vector<UnitsPtr> referencedUnits(const ModelPtr &model, const UnitsPtr &units)
+{
+    std::vector<UnitsPtr> requiredUnits;
+    std::vector<UnitsPtr> visiting;
+
+    findReferencedUnits(model, units, requiredUnits, visiting);
 
     return requiredUnits;
 }
